@@ -87,10 +87,17 @@ def run_shard(spec, acc):
         for qm in ('queue', 'noqueue'):
             configs.append({'layout': layout, 'queue_mode': qm,
                             'settings': {'required_peer_approvals': 1}})
-    for i in range(-1 if spec['shard'] < 3 else 0, nstates):
+    for i in range(-1 if spec['shard'] < 6 else 0, nstates):
         cfg = configs[(spec['shard'] + i * spec['nshards']) % len(configs)]
         op = OPENERS[rng.randrange(len(OPENERS))]
-        if i < 0:
+        if i < 0 and spec['shard'] >= 3:
+            # directed: a pull request partially merged through the queue
+            # (the instance remembers it as merged), still open
+            op = gen.OPENERS['partial_merge']
+            cfg = {'layout': ['d2', 'd3', 's1d2'][spec['shard'] - 3],
+                   'queue_mode': 'queue'}
+            acc.count('c10_directed_partial_merge')
+        elif i < 0:
             # directed: a pending backport with integration pull requests
             # (the default of a deployment) - see known_findings.json
             op = gen.OPENERS['backport_pending']
